@@ -109,22 +109,24 @@ struct Lexer {
         size_t i = 0;
         while (i < pend.size()) {
             const char ch = pend[i];
-            if (ch == '\x02') {
-                if (pend.size() - i < 8) break;
+            if (ch == '\x02' || ch == '\x04') {
+                // a data token is \x02 T hh hh \x03 \n, an identity block \x04 I hh a..z... \x05 (32 bytes): as soon as
+                // the bytes at hand cannot be one any more the lead byte is an ordinary byte; a well-formed but
+                // incomplete prefix waits for more input
+                const size_t need = ch == '\x02' ? 8 : 32;
+                const size_t have = std::min(need, pend.size() - i);
                 const char* p = pend.data() + i;
-                if (p[1] == 'T' && hexval(p[2]) >= 0 && hexval(p[3]) >= 0 && hexval(p[4]) >= 0 && hexval(p[5]) >= 0 && p[6] == '\x03' && p[7] == '\n') {
-                    flush_other();
-                    item("{\"k\":\"t\",\"f\":" + std::to_string(hexval(p[2]) * 16 + hexval(p[3])) + ",\"q\":" + std::to_string(hexval(p[4]) * 16 + hexval(p[5])) + ",\"n\":8}");
-                    i += 8;
-                    continue;
+                bool fits = true;
+                for (size_t k = 1; k < have && fits; ++k) {
+                    if (ch == '\x02') fits = k == 1 ? p[k] == 'T' : k <= 5 ? hexval(p[k]) >= 0 : k == 6 ? p[k] == '\x03' : p[k] == '\n';
+                    else fits = k == 1 ? p[k] == 'I' : k <= 3 ? hexval(p[k]) >= 0 : k == 31 ? p[k] == '\x05' : p[k] == static_cast<char>('a' + ((k - 4) % 26));
                 }
-            } else if (ch == '\x04') {
-                if (pend.size() - i < 32) break;
-                const char* p = pend.data() + i;
-                if (p[1] == 'I' && hexval(p[2]) >= 0 && hexval(p[3]) >= 0 && p[31] == '\x05' && std::memchr(p, '\n', 32) == nullptr) {
+                if (fits && have < need) break;
+                if (fits) {
                     flush_other();
-                    item("{\"k\":\"id\",\"f\":" + std::to_string(hexval(p[2]) * 16 + hexval(p[3])) + ",\"n\":32}");
-                    i += 32;
+                    if (ch == '\x02') item("{\"k\":\"t\",\"f\":" + std::to_string(hexval(p[2]) * 16 + hexval(p[3])) + ",\"q\":" + std::to_string(hexval(p[4]) * 16 + hexval(p[5])) + ",\"n\":8}");
+                    else item("{\"k\":\"id\",\"f\":" + std::to_string(hexval(p[2]) * 16 + hexval(p[3])) + ",\"n\":32}");
+                    i += need;
                     continue;
                 }
             }
